@@ -23,7 +23,12 @@ RULE = ("random networks on rasters <= 56 cells (quick) / <= 400 (thorough) and 
         "either side (columns continuing east of 180 / west of -180), 0..360-convention windows east of 180 and their "
         "mirror west of -180, cells of 1/8 .. 5 degrees, latitudes -80..80. non-trivial = some path of "
         ">= 2 cells stops for a reason other than 'pit / no next cell'; distinct = SHA-1 of the case description; "
-        "thorough adds the exhaustive universe of all functional graphs on <= 4 nodes x all masks x 6 max_length values")
+        "thorough adds the exhaustive universe of all functional graphs on <= 4 nodes x all masks x 6 max_length values; "
+        "round trip (unit m, no exact arithmetic needed): on loop-free networks over grids with irrational step lengths "
+        "(square cells of 0.1 .. 1000 m, non-square non-Pythagorean cells, geographic cells of 1/120 .. 5 degrees) the "
+        "implementation's own full path from a start cell is taken, its prefix lengths are accumulated left to right in "
+        "binary64 from gis_utils.distance of consecutive cells, and path / snap are called again with max_length equal "
+        "to exactly such a prefix length (and to the reported total length): the result must be exactly that prefix")
 
 SC = 4            # common denominator of the exact disciplines (cell units, Pythagorean cells)
 KTAB = 80         # table mode: lengths are scaled by 2**KTAB
@@ -31,6 +36,14 @@ KTAB = 80         # table mode: lengths are scaled by 2**KTAB
 PYTH = [(3.0, -4.0), (4.0, -3.0), (3.0, 4.0), (0.75, -1.0), (6.0, -8.0), (-3.0, -4.0), (1.5, -2.0), (5.0, -12.0), (12.0, 5.0)]
 DYADIC = [(1.0, -1.0), (0.5, -0.5), (2.0, -1.0), (1.0, 1.0), (0.25, -0.5), (4.0, -2.0)]
 GEO = [(0.25, -0.25), (0.5, -0.25), (0.125, -0.25), (1.0, -1.0), (0.25, 0.25), (2.0, -2.0), (1.0, 1.0), (5.0, -2.5)]
+# round-trip family: projected cells whose step lengths are irrational / not binary64 multiples of each other
+# (diagonals of square cells, non-square non-Pythagorean cells, decimal resolutions), and geographic cells that are
+# not dyadic (1/120, 1/1200, 0.1 degree) besides the dyadic ones above
+RT_PROJ = [(1.0, -1.0), (0.1, -0.1), (30.0, -30.0), (100.0, -50.0), (0.3, 0.3), (25.0, -25.0), (1000.0, -1000.0),
+           (0.5, -0.5), (90.0, -90.0), (2.0, -1.0), (1.0 / 3.0, -1.0 / 3.0), (10.0, -10.0), (50.0, 100.0), (0.1, -0.3),
+           (-1.0, -1.0), (12.5, -12.5), (7.0, -3.0)]
+RT_GEO = [(1.0 / 120.0, -1.0 / 120.0), (1.0 / 1200.0, -1.0 / 1200.0), (0.1, -0.1), (1.0 / 120.0, 1.0 / 120.0), (0.05, -0.1)]
+RT_MAXPROBE = 14
 
 
 class Hang(Exception):
@@ -262,6 +275,8 @@ def run(ctx):
                 _vector_case(ctx, rng, 40 if quick else 120)
             else:
                 _main_upstream_case(ctx, rng, 30 if quick else 100)
+            if rng.random() < 0.15:
+                _roundtrip_case(ctx, rng, max_cells)
             if len(ctx.cases) > 300:
                 ctx.flush()
         if not quick:
@@ -503,6 +518,148 @@ def _raster_case(ctx, rng, max_cells):
     dtype_ok = all(p.dtype == flw.idxs_ds.dtype for p in paths)
     _add_trace(ctx, desc, reqs, checks, nxt, starts, mask, ml_arg, fuel, stepargs, scale, exact,
                impl_paths, [float(x) for x in dist], canon_idx(sidx, n), sdist, dtype_ok, n)
+
+
+
+def _roundtrip_case(ctx, rng, max_cells):
+    """metamorphic round trip, unit 'm', step lengths that do not add exactly in binary64: the implementation's own
+    full path p_0 .. p_L from a start cell, c_0 = 0.0, c_k = fl(c_(k-1) + distance(p_(k-1), p_k)) (left to right, the
+    step lengths the library itself uses); path / snap called again with max_length = c_k must return exactly
+    p_0 .. p_k with length c_k: the step that reaches c_k does not EXCEED it, the next (positive) step does. No real
+    arithmetic is involved: c_k is by construction the travelled length after k steps."""
+    from affine import Affine
+    from pyflwdir import gis_utils
+    for _ in range(6):
+        if rng.random() < 0.5:
+            shape = gen_shape(rng, max_cells=max_cells)
+            ds, fam = gen_slope_net(rng, shape), "slope"
+        else:
+            ds, shape, fam = gen_raster_net(rng, max_cells=max_cells)
+        if not has_loop(ds):
+            break
+    else:
+        ctx.count("roundtrip:skipped-loops")
+        return
+    nrow, ncol = shape
+    n = len(ds)
+    valid = [i for i in range(n) if ds[i] != n]
+    if not valid:
+        return
+    g = rng.random()
+    latlon = g < 0.35
+    if latlon:
+        if rng.random() < 0.5:
+            xres, yres = rng.choice(GEO)
+            x0, y0, _place = gen_geo_origin(rng, nrow, ncol, xres, yres)
+        else:
+            xres, yres = rng.choice(RT_GEO)
+            west = float(rng.randint(-180, 179 - int(math.ceil(ncol * abs(xres)))))
+            south = float(rng.randint(-80, 79 - int(math.ceil(nrow * abs(yres)))))
+            x0 = west if xres > 0 else west + ncol * abs(xres)
+            y0 = south if yres > 0 else south + nrow * abs(yres)
+        grid = "geo"
+    else:
+        xres, yres = rng.choice(RT_PROJ)
+        x0 = rng.choice([0.0, 0.0, 1000.0, -250.5, 634512.3])
+        y0 = rng.choice([0.0, 4.0, 5200000.0, -17.25])
+        grid = "square" if abs(xres) == abs(yres) else "nonsquare"
+    transform = Affine(xres, 0.0, x0, 0.0, yres, y0)
+    dtype = rng.choice([np.int32, np.int32, np.int64, np.uint32])
+    try:
+        flw = mk_raster(ds, shape, dtype=dtype, transform=transform, latlon=latlon)
+    except ValueError:
+        ctx.count("ctor-rejected")
+        return
+    base = {"ds": ds, "shape": list(shape), "transform": [xres, 0.0, x0, 0.0, yres, y0], "latlon": latlon,
+            "dtype": np.dtype(dtype).name}
+    direction = rng.choice(["down", "down", "up"])
+    if direction == "down":
+        nxt = list(ds)
+    else:
+        r0 = call_impl(ctx, {"op": "idxs_us_main", **base}, lambda: flw.idxs_us_main, "idxs_us_main")
+        if r0 is None:
+            return
+        nxt = canon_idx(r0, n)
+    starts = []
+    for _ in range(rng.randint(1, 3)):
+        s = pick_start(rng, nxt, valid)
+        if s not in starts:
+            starts.append(s)
+    mask = None
+    if rng.random() < 0.3:
+        mask = [rng.random() < 0.05 for _ in range(n)]
+        w = walk(nxt, starts[0], 12)
+        if len(w) > 3 and rng.random() < 0.6:
+            mask[w[rng.randint(3, len(w) - 1)]] = True
+    mask_np = None if mask is None else np.array(mask, dtype=bool).reshape(shape)
+    ctx.count("roundtrip:grid:" + grid)
+    ctx.count("roundtrip:dir:" + direction)
+    for s in starts:
+        idxs = np.array([s], dtype=rng.choice([np.int64, np.int32]))
+        kw = dict(idxs=idxs, mask=mask_np, unit="m", direction=direction)
+        desc = {"op": "path+snap roundtrip", **base, "start": s, "mask": None if mask is None else [int(b) for b in mask],
+                "unit": "m", "direction": direction}
+        r = call_impl(ctx, desc, lambda: flw.path(**kw), "path")
+        if r is None:
+            return
+        full = canon_idx(r[0][0], n)
+        total = float(r[1][0])
+        L = len(full) - 1
+        steps = [float(gis_utils.distance(full[k], full[k + 1], ncol, latlon, transform)) for k in range(L)]
+        cum = [0.0]
+        for d in steps:
+            cum.append(cum[-1] + d)         # left to right, binary64: the travelled length after each step
+        fs = []
+        if any(full[k + 1] != nxt[full[k]] for k in range(L)):
+            fs.append({"kind": "spec", "what": "round trip: the full path does not follow the next-cell map", "path": full})
+        if not all(d > 0.0 and math.isfinite(d) for d in steps):
+            ctx.count("roundtrip:skipped-nonpositive-step")
+            continue
+        if cum[-1] != total:
+            # the reported length is the left-to-right binary64 sum of the step lengths the library itself reports
+            fs.append({"kind": "spec", "what": "round trip: reported path length is not the left-to-right sum of "
+                       "gis_utils.distance over the consecutive cells of the path", "reported": total, "sum": cum[-1],
+                       "steps": steps, "path": full})
+        ks = list(range(L + 1))
+        if len(ks) > RT_MAXPROBE:
+            ks = sorted(set(rng.sample(ks, RT_MAXPROBE - 2) + [0, L]))
+        probes = [(k, cum[k], "prefix") for k in ks] + [(L, total, "reported-total")]
+        nprobe = 0
+        for k, ml, why in probes:
+            d1 = dict(desc, max_length=ml, prefix_cells=k + 1, max_length_is=why)
+            r1 = call_impl(ctx, d1, lambda: flw.path(max_length=ml, **kw), "path")
+            if r1 is None:
+                return
+            r2 = call_impl(ctx, d1, lambda: flw.snap(max_length=ml, **kw), "snap")
+            if r2 is None:
+                return
+            nprobe += 1
+            got = canon_idx(r1[0][0], n)
+            gdist = float(r1[1][0])
+            want = full[:k + 1]
+            if got != want and len(fs) < 3:
+                fs.append({"kind": "spec", "what": f"round trip: max_length is bit for bit the travelled length after {k} steps of the "
+                           f"implementation's own path ({why}), but path() returns {len(got)} cells instead of the {k + 1} cells of that "
+                           "prefix (a step that does not make the travelled length exceed max_length was refused, or one that does was taken)",
+                           "max_length": ml, "impl": got, "expected": want, "steps": steps[:k + 1], "full_path": full})
+            elif got == want and gdist != cum[k] and len(fs) < 3:
+                fs.append({"kind": "spec", "what": "round trip: length of the prefix differs from the left-to-right sum of its step lengths",
+                           "max_length": ml, "impl": gdist, "expected": cum[k], "path": got})
+            sidx = canon_idx(r2[0], n)
+            sd = float(np.asarray(r2[1]).ravel()[0])
+            if sidx != [got[-1]] and len(fs) < 3:
+                fs.append({"kind": "spec", "what": "round trip: snap cell is not the last cell of path() for the same arguments",
+                           "max_length": ml, "snap": sidx, "path": got})
+            elif sd != float(np.float32(gdist)) and len(fs) < 3:
+                fs.append({"kind": "spec", "what": "round trip: snap distance is not the float32 value of the path length",
+                           "max_length": ml, "snap": sd, "path": gdist})
+        ctx.count("roundtrip:probes", nprobe)
+        ctx.count("roundtrip:pathlen:" + ("1" if L == 0 else "2-3" if L <= 2 else "4-8" if L <= 7 else "9+"))
+        inexact = any(Fraction(cum[k]) + Fraction(steps[k]) != Fraction(cum[k + 1]) for k in range(L))
+        ctx.count("roundtrip:sum-rounds" if inexact else "roundtrip:sum-exact")
+        if fs:
+            desc = dict(desc, max_length=fs[0].get("max_length"))
+        ctx.add(desc, [], lambda ans, fs=fs: fs, nontrivial=L >= 2 and inexact)
 
 
 def _stop_reasons(nxt, mask, impl_paths, n):
